@@ -130,9 +130,13 @@ def check(ctx, case):
         ctx.count("mixed-degree")
         if r[0] != "ok" or not isinstance(r[1], bool) or r[1] is not True:
             fails.append(Fail(kind="O", what="== on a mixed-degree shape does not return True for itself", impl=r))
+        h = case["side"] / 2
+        crossing = h < case["r"] * 0.999 and case["r"] * 1.001 < h * 2 ** 0.5      # the boundaries cross: R is neither C nor S
         r2 = I.outcome(lambda: R == S)
-        if r2[0] != "ok" or r2[1] is not False:
+        if crossing and (r2[0] != "ok" or r2[1] is not False):
             fails.append(Fail(kind="O", what="== on mixed-degree vs polygon does not return False", impl=r2))
+        if not crossing and r2[0] != "ok":
+            fails.append(Fail(kind="O", what="== raised on the result of a nested circle/square operation", impl=r2))
         return fails
     if case.get("curvedsplit"):
         S0 = I.Primitive.circle(case["r"], (0, 0), case["nd"])
